@@ -157,3 +157,116 @@ func verifHarness_C04_write_in_ondata_preempt2_T() {
 	verifC04(verifChoose("mode", 3), 1, 1+verifChoose("space", 3), 5, false, 2)
 	verifAssert(false, "witness")
 }
+
+// two rounds: a second backlog on the same connection after the first one has
+// drained completely, written from another goroutine with the peer only
+// reading (whatever state the first drain left behind must allow the second).
+func verifHarness_C04_second_backlog_after_full_drain() {
+	verifBound("rounds", 2)
+	verifBound("preemptions", 1)
+	mode := verifChoose("mode", 3)
+	vkReset()
+	vk.regime = vkBuffered
+	MaxOpenFiles = 32
+	g := NewEngine(verifEngineConf(mode))
+	verifSched(true, 1)
+	if err := g.Start(); err != nil {
+		verifFail("engine-start-failed", "")
+		return
+	}
+	space := 1 + verifChoose("space", 2)
+	f := vk.newFd(vkSockStream)
+	f.sendSpace = space
+	verifGo(func() {
+		for i := 0; i < 16; i++ {
+			verifBlockUntil(func() bool { return f.sendSpace < space })
+			f.peerDrain(space - f.sendSpace)
+		}
+	})
+	conn := &Conn{fd: f.fd, typ: ConnTypeTCP}
+	if err := g.pollers[0].addConn(conn); err != nil {
+		verifFail("addconn-failed", "")
+		return
+	}
+	name := verifModeName(mode)
+	var all []byte
+	for round := 0; round < 2; round++ {
+		payload := verifBytes("payload", 3)
+		n, err := conn.Write(payload)
+		verifAssertD(err == nil && n == 3, "write-accepted", name)
+		all = append(all, payload...)
+		verifJoin()
+		verifAssertD(len(conn.writeList) == 0, "backlog-drains-when-peer-makes-room", name+"/round")
+		verifAssertD(len(f.wire) == len(all), "accepted-bytes-delivered", name+"/round")
+	}
+	verifAssertD(verifEqBytes(f.wire, all), "delivered-bytes-intact", name+"/two-rounds")
+	verifAssert(false, "witness")
+}
+
+// a dialled connection: the write is issued inside the dial callback (the
+// dialled connection's "open" notification), which the poller runs when the
+// non-blocking connect completes; it leaves a backlog that must drain while
+// the peer reads.
+func verifHarness_C04_write_in_dial_callback() {
+	verifBound("preemptions", 1)
+	mode := verifChoose("mode", 3)
+	vkReset()
+	vk.regime = vkBuffered
+	MaxOpenFiles = 32
+	g := NewEngine(verifEngineConf(mode))
+	verifSched(true, 1)
+	if err := g.Start(); err != nil {
+		verifFail("engine-start-failed", "")
+		return
+	}
+	payload := verifBytes("payload", 4)
+	accepted := 0
+	var conn *Conn
+	immediate := verifChoose("connect_completes_immediately", 2) == 1
+	vk.connectImmediately = immediate
+	// the peer's receive window, set when the socket appears
+	space := 1 + verifChoose("space", 2)
+	vk.onNewSocket = func(f *vkFd) { f.sendSpace = space }
+	err := g.DialAsyncTimeout("unix", "/verif.sock", 0, func(c *Conn, err error) {
+		if err != nil {
+			return
+		}
+		conn = c
+		n, werr := c.Write(payload)
+		if werr == nil {
+			accepted = n
+		}
+	})
+	if err != nil {
+		verifFail("dial-starts", "")
+		return
+	}
+	var f *vkFd
+	for _, x := range vk.fds {
+		if x != nil && x.kind == vkSockStream {
+			f = x
+		}
+	}
+	verifGo(func() {
+		for i := 0; i < 10; i++ {
+			verifBlockUntil(func() bool { return f.sendSpace < space })
+			f.peerDrain(space - f.sendSpace)
+		}
+	})
+	if !immediate {
+		f.connectDone(0)
+	}
+	verifStepBudget(400000)
+	verifJoin()
+	verifStepBudgetEnd()
+	name := verifModeName(mode) + "/dial-callback"
+	if immediate {
+		name += "/immediate-connect"
+	}
+	verifAssertD(conn != nil && accepted == 4, "write-accepted", name)
+	if conn != nil && !conn.closed {
+		verifAssertD(len(conn.writeList) == 0, "backlog-drains-when-peer-makes-room", name)
+		verifAssertD(len(f.wire) == accepted && verifEqBytes(f.wire, payload), "accepted-bytes-delivered", name)
+	}
+	verifAssert(false, "witness")
+}
